@@ -745,8 +745,13 @@ impl ExactSizeIterator for BitVectorIntoIter {
 impl Iterator for BitVectorIntoIter {
     type Item = bool;
     fn next(&mut self) -> Option<Self::Item> {
-        self.i += 1;
-        self.bv.get(self.i - 1)
+        // do not move past the end: `len()` computes `n_bits - i`
+        if self.i < self.bv.n_bits {
+            self.i += 1;
+            self.bv.get(self.i - 1)
+        } else {
+            None
+        }
     }
 }
 
